@@ -60,6 +60,7 @@ func Verif_C03_Metadata() {
 	symbolicValues := zv.Choose("focus-on-values", 2) == 1
 	sendHeaderExplicitly, headerBeforeRecv, appendMD := false, false, false
 	setsHeaders, sendsMessage := true, true
+	singleResponse := false
 	nHdrOpts, nTlrOpts := 1, 1
 	reqVal, hdrVal, tlrVal := "rv", "hv", "tv"
 	reqBin, tlrBin := []byte{0x00, 0xff}, []byte{0x01}
@@ -75,6 +76,11 @@ func Verif_C03_Metadata() {
 		appendMD = zv.Bool("caller-uses-AppendToOutgoingContext")
 		setsHeaders = zv.Bool("handler-sets-headers")
 		sendsMessage = zv.Bool("streaming-handler-sends-a-message")
+		if streaming {
+			// a client-streaming method: exactly one response, and the caller (like
+			// the generated CloseAndRecv) receives exactly once
+			singleResponse = zv.Bool("single-response-method")
+		}
 		nHdrOpts = zv.Choose("header-call-options", zv.Param("optdup", 1)+1)
 		nTlrOpts = zv.Choose("trailer-call-options", zv.Param("optdup", 1)+1)
 	}
@@ -128,7 +134,7 @@ func Verif_C03_Metadata() {
 			zv.Assert(ss.SendHeader(nil) == nil, "send-header-accepted")
 			setAfterSent(ss.SetHeader)
 		}
-		if sendsMessage {
+		if sendsMessage || (singleResponse && !fails) {
 			ss.SendMsg(&zzfix.Msg{Count: 7})
 			setAfterSent(ss.SetHeader)
 		}
@@ -174,7 +180,11 @@ func Verif_C03_Metadata() {
 		final = ch.Invoke(ctx, "/a/U", &zzfix.Msg{}, resp, opts...)
 		gotMsg = final == nil
 	} else {
-		cs, err := ch.NewStream(ctx, zzfix.StreamDescOf("S"), "/a/S", opts...)
+		mtd := "S"
+		if singleResponse {
+			mtd = "C"
+		}
+		cs, err := ch.NewStream(ctx, zzfix.StreamDescOf(mtd), "/a/"+mtd, opts...)
 		if err != nil {
 			zv.Fail("stream-created")
 			return
@@ -184,7 +194,11 @@ func Verif_C03_Metadata() {
 		if headerBeforeRecv {
 			streamHdr, _ = cs.Header()
 		}
-		for i := 0; i < 3; i++ {
+		receives := 3
+		if singleResponse {
+			receives = 1
+		}
+		for i := 0; i < receives; i++ {
 			e := cs.RecvMsg(&zzfix.Msg{})
 			if e != nil {
 				final = e
